@@ -56,6 +56,7 @@ def check(ctx):
         check_template(ctx, f, rec, st, p, parts, schema, extras, key_colon, table)
     r20_4_guard(ctx, f, rec, st, out, table)
     r20_5(ctx, f, rec, st, region, out, handle)
+    r20_6(ctx, f, handle)
     ctx.not_decided.append("nothing of C20 beyond the TSV being tab-separated with columns read, haplotype, phase set, contig")
 
 
@@ -339,3 +340,33 @@ def r20_5(ctx, f, rec, st, region, out, handle):
     ok_it = bool(loops) and "read_file" in norm(loops[-1].iter)
     skip = [s for s in walk_stmts(region) if isinstance(s, (ast.Continue, ast.Break))]
     ctx.check(ok_it and not skip, "R20.5", f.where(st), "the loop runs over every parsed record of the input (no continue/break)", key_of(f, "record-loop"))
+
+
+def r20_6(ctx, f, handle):
+    """The output argument defaults to sys.stdout (a file object): it may reach open() only when it is a path."""
+    repo = ctx.repo
+    mod = f.module
+    aa = mod.funcs.get("add_arguments")
+    default_is_stdout = False
+    if aa is not None:
+        for c in walk_own(aa.node):
+            if isinstance(c, ast.Call) and any(const_value(a) in ("-o", "--output") for a in c.args):
+                default_is_stdout = any(k.arg == "default" and norm(k.value) == "sys.stdout" for k in c.keywords)
+    for fn in mod.funcs.values():
+        for d, p in zip(reversed(fn.node.args.defaults), reversed(fn.params)):
+            if norm(d) == "sys.stdout":
+                default_is_stdout = True
+    opens = [s for s in walk_own(f.node) if isinstance(s, ast.Assign) and norm(s.targets[0]) == handle and isinstance(s.value, ast.Call) and norm(s.value.func) == "open"]
+    if not default_is_stdout:
+        ctx.holds("R20.6", f.where(), "the output argument is always a path", nontrivial=False)
+        return
+    ok = bool(opens)
+    for o in opens:
+        g = guards_of(f.node, o)
+        pth = norm(o.value.args[0])
+        ok = ok and any(canon_test(t, pol) in ((f"{pth} is sys.stdout", False), (f"isinstance({pth}, str)", True), (f"{pth} == sys.stdout", False)) for t, pol in g)
+    alt = [s for s in walk_own(f.node) if isinstance(s, ast.Assign) and norm(s.targets[0]) == handle and norm(s.value) in ("sys.stdout",) or (isinstance(s, ast.Assign) and norm(s.targets[0]) == handle and isinstance(s.value, ast.Name))]
+    ctx.check(ok and bool(alt), "R20.6", f.where(), "without -o the records go to standard output: the default (sys.stdout, a file object) is used as it is and only a path is passed to open()", key_of(f, "stdout-default"))
+    closes = [s for s in walk_stmts(f.node.body) if isinstance(s, ast.Expr) and norm(s.value) == f"{handle}.close()"]
+    okc = all(any(canon_test(t, pol) == (f"{handle} is sys.stdout", False) for t, pol in guards_of(f.node, c)) for c in closes)
+    ctx.check(okc, "R20.6", f.where(), "standard output is not closed by the command", key_of(f, "stdout-close"))
